@@ -299,8 +299,8 @@ class SimFS:
             path = os.fspath(file)
             if isinstance(path, bytes):
                 path = path.decode()
-            path = os.path.abspath(path)
-            target = path
+            target = path                       # opened exactly as given: which file a spelling denotes is the kernel's
+            path = os.path.abspath(path)        # business ('symlink/..' is not a lexical matter); this is for the record only
         rec = OpenRec(path, mode, encoding, newline, errors, buffering, self.op_index)
         self.counters['opens'] += 1
         for f in self.active_faults('open'):
